@@ -260,6 +260,18 @@ func cmdCheck(args []string) int {
 			}
 		}
 	}
+	{
+		seen := map[string]bool{}
+		var uniq []instance
+		for _, in := range insts {
+			k := in.entry.Func + "(" + paramString(in.params) + ")"
+			if !seen[k] {
+				seen[k] = true
+				uniq = append(uniq, in)
+			}
+		}
+		insts = uniq
+	}
 	var results []*instResult
 	inconclusive := []string{}
 	for _, in := range insts {
